@@ -219,7 +219,12 @@ class Executor:
             raise Unsupported(f"aggregate {name}")
         if k == "cast":
             return self.read(st, rv[1])
+        if k == "unsupported":
+            return self.unsupported_rvalue(st, rv)
         raise Unsupported(f"rvalue {rv}")
+
+    def unsupported_rvalue(self, st, rv):
+        raise Unsupported(rv[1])
 
     def binop(self, op, a, b):
         if a[0] == "int" and b[0] == "int":
@@ -269,6 +274,15 @@ class Executor:
                 if entered and not st.frames and bb in getattr(self, "stop_blocks", ()):
                     out.append(Outcome("reach", st, bb=bb))
                     break
+                hv = getattr(self, "loop_havoc", None)
+                if hv and not st.frames and bb in hv:
+                    hk = ("havoc", st.body_name, bb)
+                    if visits.get(hk):
+                        out.append(Outcome("cut", st, bb=bb))
+                        break
+                    visits = dict(visits)
+                    visits[hk] = 1
+                    self.apply_havoc(st, body, hv[bb])
                 entered = True
                 st.steps += 1
                 if st.steps > 4000:
@@ -319,7 +333,7 @@ class Executor:
                         for k, tgt in t.args["arms"]:
                             succ.append((v[1] == k, tgt))
                             conds.append(v[1] == k)
-                        if t.args["otherwise"] is not None:
+                        if t.args["otherwise"] is not None and not (getattr(self, "trust_unreachable", False) and body.blocks[t.args["otherwise"]].term.kind == "unreachable"):
                             succ.append((z3.Not(z3.Or(*conds)) if conds else z3.BoolVal(True), t.args["otherwise"]))
                     else:
                         raise Unsupported(f"switch on {v[0]}")
